@@ -25,6 +25,7 @@ func init() {
 	replayers["c10/snapshot"] = replayC10Snapshot
 	replayers["c10/isolation"] = replayC10Isolation
 	replayers["c10/firstuse"] = replayFirstUse
+	replayers["c10/environment"] = replayEnvSense
 }
 
 type c10Prog struct {
@@ -686,6 +687,7 @@ func checkC10(c *Ctx) {
 			all = append(all, &set.Encs[i])
 		}
 		runFirstUse(c, "c10/firstuse", all)
+		runEnvSense(c, "c10/environment")
 		c06Constructors(c)
 	}
 	c.Exhaustive = true
